@@ -438,12 +438,15 @@ def full_ring_threshold(repo, res):
 
 
 def run(repo, res, tier):
-    res.rules = ["R1 single mu0 (constant folding + bindings)", "R2 BHJM return dimensions (44 obligations)", "R3 typed setter sync", "R4 None-flow", "R5 one inside-mask for J/M and for +-J", "R6 paired excitation stores atomic", "R7 every normal setter exit writes both", "R8 span-vs-360 comparisons partition the admitted spans alike", "R9 per-axis siblings use one axis each"]
+    res.rules = ["R1 single mu0 (constant folding + bindings)", "R2 BHJM return dimensions (44 obligations)", "R3 typed setter sync", "R4 None-flow", "R5 one inside-mask for J/M and for +-J", "R6 paired excitation stores atomic", "R7 every normal setter exit writes both", "R8 span-vs-360 comparisons partition the admitted spans alike", "R9 per-axis siblings use one axis each", "R10 no store through an array-indexed copy (lost update)"]
     scan_constants(repo, res)
     # R9: per-axis code of the numerical layer (inside masks, bounding boxes, component formulas) is one template per axis
     import rules_axis
     n9 = rules_axis.run(repo, res, "R9", lambda mn: mn.startswith("magpylib._src.fields"))
     res.require(n9 >= 20, f"R9: only {n9} per-axis groups found in the numerical layer")
+    # R10: a correction term (the inner hull of a hollow body, -J inside) written through an array-indexed copy never reaches the result
+    import rules_lostwrite
+    rules_lostwrite.run(repo, res, "R10", lambda mn: mn.startswith("magpylib._src.fields"))
     results = dim_rules.run_fields()
     res.require(len(results) >= 44, f"only {len(results)} field-function runs (expected >= 44)")
     errors = []
